@@ -2,7 +2,7 @@
 (R14.*).  Class-lattice predicates are evaluated over the folded class hierarchy."""
 import ast
 
-from .model import AnalysisError, Unfoldable, Folder, ClassRef, norm
+from .model import AnalysisError, Unfoldable, Folder, ClassRef, norm, resolve_locals
 from .core import RuleResult, Finding
 from .interp import strip_doc
 from .symexpr import SymEval
@@ -284,6 +284,9 @@ def r04_c(ctx):
                     'before it is yielded', floor=3)
     helpers = _wiring_helpers(repo)
     for nm, src in (('all', 'self.expr.all'), ('children', 'self.expr.children'), ('contents', 'self.expr.contents')):
+        if view_decided(ctx, rr, 'R04.c', 'TexNode', nm, 'wrappers are handed out without their parent, or the view does not '
+                        'mirror the expression view'):
+            continue
         fd = _m(node, nm, 'getter')
         loops = [n for n in ast.walk(fd.node) if isinstance(n, ast.For)]
         ok_src = len(loops) == 1 and norm(loops[0].iter) == src
@@ -374,14 +377,109 @@ def r04_d(ctx):
     return rr
 
 
+# --------------------------------------------------------------------------- views as sequences (seqalg)
+
+VIEW_SPECS = {
+    # what each view produces, written the plain way (today's semantics); compared as sequence terms, so the
+    # implementation may use loops, list building, comprehensions, itertools or helpers
+    ('TexNode', '__descendants'): '''
+def f(self):
+    yield from self.contents
+    for c in self.children:
+        yield from c.descendants
+''',
+    ('TexNode', 'find_all'): '''
+def f(self, name=None, **attrs):
+    for d in self.__descendants():
+        if hasattr(d, '__match__') and d.__match__(name, attrs):
+            yield d
+''',
+    ('TexNode', 'text'): '''
+def f(self):
+    for d in self.contents:
+        if isinstance(d, (TexText, str)):
+            yield d
+        elif hasattr(d, 'text'):
+            yield from d.text
+''',
+    ('TexNode', 'all'): '''
+def f(self):
+    for child in self.expr.all:
+        assert isinstance(child, TexExpr)
+        node = TexNode(child)
+        node.parent = self
+        yield node
+''',
+    ('TexNode', 'children'): '''
+def f(self):
+    for child in self.expr.children:
+        node = TexNode(child)
+        node.parent = self
+        yield node
+''',
+    ('TexNode', 'contents'): '''
+def f(self):
+    for child in self.expr.contents:
+        if isinstance(child, TexExpr):
+            node = TexNode(child)
+            node.parent = self
+            yield node
+        else:
+            yield child
+''',
+}
+
+
+def view_term(ctx, cname, mname):
+    """(canonical sequence produced by the view, canonical sequence of its specification) or raises NotSequence"""
+    from . import seqalg
+    repo = ctx.repo
+    cls = repo.need_cls('data.' + cname)
+    fd = _private(cls, mname) if mname.startswith('__') and not mname.endswith('__') else _m(cls, mname, 'getter') \
+        if 'property' in (cls.methods[mname][0].decorators if mname in cls.methods else []) else _m(cls, mname)
+
+    def sub(a, b):
+        ca, cb = repo.cls('data.' + a) or repo.cls('utils.' + a), repo.cls('data.' + b) or repo.cls('utils.' + b)
+        if ca is None:
+            return False
+        if cb is not None:
+            return ca is not cb and ca.is_subclass_of(cb)
+        return any(getattr(k, 'name', k) == b for k in (ca.mro or [])[1:]) or b in [x if isinstance(x, str) else x.name for x in (ca.mro or [])]
+    seqalg.LATTICE['subclass'] = sub
+    try:
+        got = seqalg.produced(fd.node)
+        want = seqalg.produced_by_source(VIEW_SPECS[(cname, mname)])
+    finally:
+        seqalg.LATTICE['subclass'] = None
+    return fd, got, want
+
+
+def view_decided(ctx, rr, rule_id, cname, mname, consequence):
+    """decide a view against its specification through the sequence algebra; True when decided (pass or finding),
+    False when the implementation is outside the algebra (the caller falls back to its shape rule)"""
+    from . import seqalg
+    try:
+        fd, got, want = view_term(ctx, cname, mname)
+    except seqalg.NotSequence:
+        return False
+    ok = got == want
+    rr.ob(ok, {'view': '%s.%s' % (cname, mname), 'produces': got[:160]})
+    if not ok:
+        rr.fail(Finding(rule_id, 'data', fd.qual, 'sequence produced by %s.%s' % (cname, mname.lstrip('_')),
+                        'the view %s.%s does not produce the specified sequence: %s.  It produces  %s  -- specified is  %s'
+                        % (cname, mname.lstrip('_'), consequence, got[:300], want[:300]), line=fd.node.lineno))
+    return True
+
+
 def r03_a(ctx):
     repo = ctx.repo
     node = repo.need_cls('data.TexNode')
     rr = RuleResult('R03.a', 'descendants = the node\'s contents followed by the descendants of every child (closure)',
                     floor=2)
     fd = _private(node, '__descendants')
+    decided = view_decided(ctx, rr, 'R03.a', 'TexNode', '__descendants', 'nodes are missed or repeated by search and navigation')
     rets = [n for n in ast.walk(fd.node) if isinstance(n, ast.Return)]
-    ok = False
+    ok = decided
     if len(rets) == 1 and isinstance(rets[0].value, ast.Call) and norm(rets[0].value.func) in ('itertools.chain', 'chain'):
         a = rets[0].value.args
         ok = len(a) == 2 and norm(a[0]) == 'self.contents' and isinstance(a[1], ast.Starred)
@@ -389,8 +487,11 @@ def r03_a(ctx):
             comp = a[1].value
             ok = isinstance(comp, (ast.ListComp, ast.GeneratorExp)) and norm(comp.generators[0].iter) == 'self.children' \
                 and norm(comp.elt) == '%s.descendants' % norm(comp.generators[0].target) and not comp.generators[0].ifs
-    rr.ob(ok, {'closure': norm(rets[0].value)[:90] if rets else None})
-    if not ok:
+    if not decided and not ok:
+        raise AnalysisError('TexNode.__descendants: enumeration outside the sequence algebra and of unknown shape')
+    if not decided:
+        rr.ob(ok, {'closure': norm(rets[0].value)[:90] if rets else None})
+    if not decided and not ok:
         rr.fail(Finding('R03.a', 'data', fd.qual, rets[0] if rets else 'descendants', 'the descendant enumeration is not '
                         'the node\'s contents followed by the descendants of each child: nodes are missed or repeated',
                         line=fd.node.lineno))
@@ -408,42 +509,44 @@ def r03_b(ctx):
     node = repo.need_cls('data.TexNode')
     rr = RuleResult('R03.b', 'find, count and attribute access are derived from find_all with the caller\'s query passed '
                     'through; find_all filters the descendant enumeration with the match predicate', floor=4)
-    # find_all
-    fd = _m(node, 'find_all')
-    ps = fd.params()
-    name_p = ps[1] if len(ps) > 1 else None
-    kw = fd.node.args.kwarg.arg if fd.node.args.kwarg else None
-    from .model import loop_form
-    fa_node = loop_form(fd.node)       # `return (d for d in ... if ...)` is read as the loop it abbreviates
-    loops = [n for n in ast.walk(fa_node) if isinstance(n, ast.For)]
-    ok = len(loops) == 1 and 'descendants' in norm(loops[0].iter) and norm(loops[0].iter).startswith('self.')
-    if ok:
-        var = norm(loops[0].target)
-        calls = [n for n in ast.walk(loops[0]) if isinstance(n, ast.Call) and isinstance(n.func, ast.Attribute) and n.func.attr == '__match__']
-        ys = [n for n in ast.walk(loops[0]) if isinstance(n, ast.Yield)]
-        ok = len(calls) == 1 and norm(calls[0].func.value) == var and [norm(a) for a in calls[0].args] == [name_p, kw] \
-            and len(ys) == 1 and norm(ys[0].value) == var
-        # the yield is guarded by exactly that predicate (and a hasattr test)
+    decided_fa = view_decided(ctx, rr, 'R03.b', 'TexNode', 'find_all', 'matching nodes are missed, repeated or out of order')
+    if not decided_fa:
+        # find_all
+        fd = _m(node, 'find_all')
+        ps = fd.params()
+        name_p = ps[1] if len(ps) > 1 else None
+        kw = fd.node.args.kwarg.arg if fd.node.args.kwarg else None
+        from .model import loop_form
+        fa_node = loop_form(fd.node)       # `return (d for d in ... if ...)` is read as the loop it abbreviates
+        loops = [n for n in ast.walk(fa_node) if isinstance(n, ast.For)]
+        ok = len(loops) == 1 and 'descendants' in norm(loops[0].iter) and norm(loops[0].iter).startswith('self.')
         if ok:
-            p = getattr(ys[0], '_parent', None)
-            while p is not None and not isinstance(p, ast.If):
-                p = getattr(p, '_parent', None)
-            ok = p is not None and any(x is calls[0] for x in ast.walk(p.test)) and not any(
-                isinstance(x, ast.UnaryOp) and isinstance(x.op, ast.Not) for x in ast.walk(p.test))
-    # nothing may cut the enumeration short: no return/raise outside the loop, no break/continue/return inside it
-    if ok:
-        early = [n for s_ in strip_doc(fa_node.body) if s_ is not loops[0] for n in ast.walk(s_)
-                 if isinstance(n, (ast.Return, ast.Raise, ast.Yield, ast.YieldFrom))]
-        early += [n for n in ast.walk(loops[0]) if isinstance(n, (ast.Break, ast.Continue, ast.Return))]
-        if early:
-            ok = False
-            rr.fail(Finding('R03.b', 'data', fd.qual, early[0] if not isinstance(early[0], (ast.Return,)) else _stmt_with(fd.node, early[0]),
-                            'find_all can stop before every descendant has been tested (%s): matching nodes are missed'
-                            % norm(_stmt_with(fd.node, early[0]))[:80], line=early[0].lineno))
-    rr.ob(ok, {'find_all': 'filters descendants by __match__(name, attrs)'})
-    if not ok:
-        rr.fail(Finding('R03.b', 'data', fd.qual, 'find_all filter', 'find_all does not yield exactly the descendants whose '
-                        'match predicate accepts the query', line=fd.node.lineno))
+            var = norm(loops[0].target)
+            calls = [n for n in ast.walk(loops[0]) if isinstance(n, ast.Call) and isinstance(n.func, ast.Attribute) and n.func.attr == '__match__']
+            ys = [n for n in ast.walk(loops[0]) if isinstance(n, ast.Yield)]
+            ok = len(calls) == 1 and norm(calls[0].func.value) == var and [norm(a) for a in calls[0].args] == [name_p, kw] \
+                and len(ys) == 1 and norm(ys[0].value) == var
+            # the yield is guarded by exactly that predicate (and a hasattr test)
+            if ok:
+                p = getattr(ys[0], '_parent', None)
+                while p is not None and not isinstance(p, ast.If):
+                    p = getattr(p, '_parent', None)
+                ok = p is not None and any(x is calls[0] for x in ast.walk(p.test)) and not any(
+                    isinstance(x, ast.UnaryOp) and isinstance(x.op, ast.Not) for x in ast.walk(p.test))
+        # nothing may cut the enumeration short: no return/raise outside the loop, no break/continue/return inside it
+        if ok:
+            early = [n for s_ in strip_doc(fa_node.body) if s_ is not loops[0] for n in ast.walk(s_)
+                     if isinstance(n, (ast.Return, ast.Raise, ast.Yield, ast.YieldFrom))]
+            early += [n for n in ast.walk(loops[0]) if isinstance(n, (ast.Break, ast.Continue, ast.Return))]
+            if early:
+                ok = False
+                rr.fail(Finding('R03.b', 'data', fd.qual, early[0] if not isinstance(early[0], (ast.Return,)) else _stmt_with(fd.node, early[0]),
+                                'find_all can stop before every descendant has been tested (%s): matching nodes are missed'
+                                % norm(_stmt_with(fd.node, early[0]))[:80], line=early[0].lineno))
+        rr.ob(ok, {'find_all': 'filters descendants by __match__(name, attrs)'})
+        if not ok:
+            rr.fail(Finding('R03.b', 'data', fd.qual, 'find_all filter', 'find_all does not yield exactly the descendants whose '
+                            'match predicate accepts the query', line=fd.node.lineno))
     # find
     fd = _m(node, 'find')
     ps = fd.params()
@@ -880,9 +983,22 @@ def r05_c(ctx):
     ok = False
     site = fd.node
     for lp in [n for n in ast.walk(fd.node) if isinstance(n, ast.For)]:
-        if isinstance(lp.iter, ast.Call) and norm(lp.iter.func) == 'enumerate' and norm(lp.iter.args[0]) == var \
-                and len(lp.iter.args) == 1 and isinstance(lp.target, ast.Tuple):
-            j = norm(lp.target.elts[0])
+        counter = None
+        if isinstance(lp.iter, ast.Name) and lp.iter.id == var:
+            # an explicit counter: k = 0 before the loop, `k += 1` as the last top-level statement of the body
+            last = lp.body[-1] if lp.body else None
+            if isinstance(last, ast.AugAssign) and isinstance(last.op, ast.Add) and isinstance(last.target, ast.Name) \
+                    and isinstance(last.value, ast.Constant) and last.value.value == 1:
+                k_ = last.target.id
+                inits = [a for a in ast.walk(fd.node) if isinstance(a, ast.Assign) and len(a.targets) == 1
+                         and isinstance(a.targets[0], ast.Name) and a.targets[0].id == k_]
+                stores = sum(1 for x in ast.walk(fd.node) if isinstance(x, ast.Name) and x.id == k_ and isinstance(x.ctx, ast.Store))
+                if len(inits) == 1 and isinstance(inits[0].value, ast.Constant) and inits[0].value.value == 0 and stores == 2 \
+                        and inits[0].lineno < lp.lineno:
+                    counter = k_
+        if counter is not None or (isinstance(lp.iter, ast.Call) and norm(lp.iter.func) == 'enumerate' and norm(lp.iter.args[0]) == var
+                                   and len(lp.iter.args) == 1 and isinstance(lp.target, ast.Tuple)):
+            j = counter if counter is not None else norm(lp.target.elts[0])
             for c in ast.walk(lp):
                 if isinstance(c, ast.Call) and isinstance(c.func, ast.Attribute) and c.func.attr == 'insert' and _is_content_list(c.func.value):
                     site = c
@@ -906,6 +1022,9 @@ def r05_c(ctx):
         if isinstance(n, ast.Assign) and isinstance(n.targets[0], ast.Subscript) and isinstance(n.targets[0].slice, ast.Slice) \
                 and _is_content_list(n.targets[0].value) and norm(n.targets[0].slice.lower) == ip and norm(n.targets[0].slice.upper) == ip:
             ok = True
+    if not ok and site is fd.node:
+        raise AnalysisError('TexExpr.insert: the multi-item placement is not recognised (no loop over the arguments that '
+                            'inserts at base + position, no slice assignment)')
     rr.ob(ok, {'insert': norm(site)[:70] if site is not fd.node else None})
     if not ok and not locals().get('skipped_reported'):
         rr.fail(Finding('R05.c', 'data', fd.qual, site if site is not fd.node else 'multi-item insert', 'items inserted '
@@ -915,7 +1034,7 @@ def r05_c(ctx):
     ok = any(isinstance(c, ast.Call) and isinstance(c.func, ast.Attribute) and (
         (c.func.attr == 'extend' and _is_content_list(c.func.value) and norm(c.args[0]) == var) or
         (c.func.attr == 'insert' and norm(c.func.value) == 'self' and len(c.args) == 2 and isinstance(c.args[1], ast.Starred)
-         and norm(c.args[1].value) == var and norm(c.args[0]).startswith('len(self.')))
+         and norm(c.args[1].value) == var and norm(resolve_locals(fd.node, c.args[0])).startswith('len(self.')))
         for c in ast.walk(fd.node))
     rr.ob(ok, {'append': 'extends the content list in argument order'})
     if not ok:
@@ -1131,44 +1250,63 @@ def r15_c(ctx):
             return data.functions.get(hname)
 
         def helper_kinds(h, k, depth_=0):
-            """kinds a per-element helper returns for an argument of kind k (If/return-structured body)"""
+            """kinds a per-element helper returns for an argument of kind k: its body is run path by path over an
+            environment of kinds (parameter and locals); conditions on kinds are decided, others fork"""
             params = [p_ for p_ in h.params() if p_ not in ('self', 'cls')]
             if len(params) != 1 or depth_ > 2:
                 return {'unknown'}
             x = params[0]
             out = set()
 
-            def go(stmts, kind):
-                for s_ in stmts:
+            def kind_of(e, env):
+                if isinstance(e, ast.Name) and e.id in env:
+                    return env[e.id]
+                if isinstance(e, ast.Attribute) and isinstance(e.value, ast.Name) and e.value.id in env and e.attr == 'expr':
+                    return 'TexExpr' if env[e.value.id] == 'TexNode' else 'unknown'
+                if isinstance(e, ast.Call) and norm(e.func) == 'TexText':
+                    return 'TexExpr'
+                if isinstance(e, ast.Call) and norm(e.func) == 'TexNode':
+                    return 'TexNode'
+                if isinstance(e, ast.IfExp):
+                    tv = test_value(e.test, {n_: frozenset({k_}) for n_, k_ in env.items()})
+                    if tv is True:
+                        return kind_of(e.body, env)
+                    if tv is False:
+                        return kind_of(e.orelse, env)
+                    a, b = kind_of(e.body, env), kind_of(e.orelse, env)
+                    return a if a == b else 'unknown'
+                return 'unknown'
+
+            def go(stmts, env, conts):
+                for i_, s_ in enumerate(stmts):
                     if isinstance(s_, ast.If):
-                        tv = test_value(s_.test, {x: frozenset({kind})})
-                        if tv is True:
-                            if go(s_.body, kind):
-                                return True
-                        elif tv is False:
-                            if go(s_.orelse, kind):
-                                return True
-                        else:
-                            a_ = go(list(s_.body), kind)
-                            b_ = go(list(s_.orelse), kind)
-                            if a_ and b_:
-                                return True
-                    elif isinstance(s_, ast.Return):
-                        out.add(elem_kind(s_.value, x, kind) if s_.value is not None else 'unknown')
-                        return True
-                    elif isinstance(s_, ast.Assign) and len(s_.targets) == 1 and isinstance(s_.targets[0], ast.Name) \
-                            and s_.targets[0].id == x:
-                        kind = elem_kind(s_.value, x, kind)
-                    elif isinstance(s_, ast.Expr) and isinstance(s_.value, ast.Constant):
+                        tv = test_value(s_.test, {n_: frozenset({k_}) for n_, k_ in env.items()})
+                        rest = (stmts[i_ + 1:],) + conts
+                        if tv is not False:
+                            go(list(s_.body), dict(env), rest)
+                        if tv is not True:
+                            go(list(s_.orelse), dict(env), rest)
+                        return
+                    if isinstance(s_, ast.Return):
+                        out.add(kind_of(s_.value, env) if s_.value is not None else 'unknown')
+                        return
+                    if isinstance(s_, ast.Raise):
+                        return
+                    if isinstance(s_, ast.Assign) and len(s_.targets) == 1 and isinstance(s_.targets[0], ast.Name):
+                        env[s_.targets[0].id] = kind_of(s_.value, env)
                         continue
-                    elif isinstance(s_, ast.Raise):
-                        return True
-                    else:
-                        out.add('unknown')
-                        return True
-                return False
-            if not go(strip_doc(h.node.body), k):
-                out.add('unknown')      # falls off the end: returns None
+                    if isinstance(s_, ast.Assign) and len(s_.targets) == 1 and isinstance(s_.targets[0], ast.Attribute) \
+                            and s_.targets[0].attr == 'parent':
+                        continue
+                    if isinstance(s_, (ast.Expr, ast.Assert, ast.Pass)):
+                        continue
+                    out.add('unknown')
+                    return
+                if conts:
+                    go(list(conts[0]), env, conts[1:])
+                else:
+                    out.add('unknown')      # falls off the end: returns None
+            go(strip_doc(h.node.body), {x: k}, ())
             return out
 
         def mapped_kinds(call, env):
@@ -1250,6 +1388,14 @@ def r15_c(ctx):
                             visit_calls(s, e)
                         continue
                     else:
+                        _is_helper_asg = isinstance(s, ast.Assign) and isinstance(s.targets[0], ast.Name) and isinstance(s.value, ast.Call) \
+                            and len(s.value.args) == 1 and not s.value.keywords and isinstance(s.value.args[0], ast.Name) \
+                            and s.value.args[0].id in e and not isinstance(s.value.args[0].id, tuple) and helper_of(s.value) is not None
+                        if _is_helper_asg and s.targets[0].id not in e:
+                            e = dict(e)
+                            e[s.targets[0].id] = frozenset(k2 for k in e[s.value.args[0].id] for k2 in helper_kinds(helper_of(s.value), k))
+                            nxt.append(e)
+                            continue
                         if isinstance(s, ast.Assign) and isinstance(s.targets[0], ast.Name) and s.targets[0].id in e:
                             v = s.targets[0].id
                             val = s.value
@@ -1327,8 +1473,14 @@ def r15_d(ctx):
     rr = RuleResult('R15.d', 'the text view admits every non-blank text kind the contents view can yield: parsed tokens '
                     'and plain strings alike, and recurses into everything else', floor=2)
     fd = _m(node, 'text', 'getter')
+    if view_decided(ctx, rr, 'R15.d', 'TexNode', 'text', 'text leaves (parsed tokens or inserted strings) are missing from the '
+                    'text view, or it does not recurse into child nodes'):
+        rr.ob(True, {'text_view': 'decided as a sequence term'})
+        return rr
     iss = _isinstance_classes(repo, data, fd.node)
     loops = [n for n in ast.walk(fd.node) if isinstance(n, ast.For)]
+    if len(loops) != 1:
+        raise AnalysisError('TexNode.text: outside the sequence algebra and of unknown shape')
     ok_src = len(loops) == 1 and norm(loops[0].iter) == 'self.contents'
     rr.ob(ok_src, {'text_view_iterates': norm(loops[0].iter) if loops else None})
     if not ok_src:
@@ -1416,6 +1568,18 @@ def r14_b(ctx):
     p = fd.params()[1]
     t = [norm(s) for s in ast.walk(fd.node) if isinstance(s, ast.Assign)]
     ok = any(x == 'self.expr.args[0].string = %s' % p for x in t) and any(x == 'self.contents = [%s]' % p for x in t)
+    if not ok:
+        # other spellings: some assignment gives the new value to a `.string`, another puts it into `.contents`
+        asg = [s_ for s_ in ast.walk(fd.node) if isinstance(s_, ast.Assign) and len(s_.targets) == 1
+               and isinstance(s_.targets[0], ast.Attribute)]
+        to_string = [s_ for s_ in asg if s_.targets[0].attr == 'string' and norm(s_.value) == p]
+        to_contents = [s_ for s_ in asg if s_.targets[0].attr == 'contents'
+                       and any(isinstance(x, ast.Name) and x.id == p for x in ast.walk(s_.value))]
+        if to_string and to_contents:
+            ok = True
+        elif not to_string and not to_contents and not any(s_.targets[0].attr in ('string', 'contents', '_contents') for s_ in asg):
+            raise AnalysisError('TexNode.string setter: no assignment to a .string / .contents attribute found (shape not '
+                                'recognised)')
     rr.ob(ok, {'string_setter': t[:4]})
     if not ok:
         rr.fail(Finding('R14.b', 'data', fd.qual, 'string setter', 'assigning node.string does not replace the text of the '
